@@ -189,6 +189,21 @@ PROPS = {
             dict(test="TestC08Free", kind="plain", race=True, tiers=[T], shards=4, env={"VERIF_C08_REPS": {T: 300}}),
         ],
     ),
+    "C19": dict(
+        pkg="c19", level="fault_enumeration",
+        technique="crash-point fault injection (verif hooks os.Exit the writing child process at every point between the file operations of a write), enumerated exhaustively per generated (old value, new value, other keys) case; old-or-new oracle on a fresh store",
+        level_text=("For each generated case the operation is first run to completion in a child process to count its crash points, then re-run once per crash point on a fresh copy of the pre-state with the process ended by os.Exit exactly there. "
+                    "A new store opened on the directory must return the previous value or the new value in full for the written key, every other key unchanged, and the pairing database must still load. Crash points are exhaustive per case; the (old, new) pairs are generated (absent, empty, shorter, equal, longer)."),
+        level_note="Trusted: the crash-point hooks sit between all file-system operations of fileStorage.Set (a run that passes zero points is reported inconclusive). Process kill only: power-loss ordering (missing fsync) cannot be observed inside one kernel; a single write() is treated as indivisible.",
+        rule=("rapid cases: op in {Storage.Set, Database.SaveEntity}, key from hc's own keys, old value absent/0..4096 bytes, new value 0..4096 bytes, 0..3 other keys; every crash point of each case is executed. "
+              "evaluations counts cases; coverage.extra.crash_points_explored counts child executions. Non-trivial: old value present and of a different length than the new one. Distinct by (op, key, old, new)."),
+        assumptions=["a crash is a process kill between two file-system calls"],
+        essential_classes=["op:set", "op:save-entity", "old:absent", "new-shorter", "new-longer", "regress"],
+        jobs=[
+            dict(test="TestC19Regress", kind="plain"),
+            dict(test="TestC19Prop", kind="rapid", checks={Q: 12, T: 300}, shards=16),
+        ],
+    ),
 }
 
 # reasons for properties not claimed yet (kept current while the framework is being built)
